@@ -234,6 +234,26 @@ NEEDS = {
              "round buffer file, then a re-run in the same directory (the stale temporary is consumed)",
     "C20-e": "the start-of-run purge of run_multiround_bitbirch globs '*.tmp': needs the monitor stopped between "
              "closing max-rss.txt.tmp and renaming it while a run starts in the same directory (the monitor dies)",
+    "C03-f": "radius / diameter accept when np.isclose(statistic, threshold): needs a merge whose statistic lies up "
+             "to 1e-5 (relative) below the threshold, e.g. a threshold a hair above a small rational",
+    "C04-f": "the .npy path is mapped with np.memmap from shape and dtype only, the header's fortran_order flag is "
+             "dropped: needs a Fortran-ordered .npy file (np.save of a column-major array)",
+    "C06-f": "the midsection threshold shift is applied in place on the round object at every call: needs a non-zero "
+             "midsection_threshold_change, >= 2 midsection batches and schedules that put different numbers of "
+             "batches on one object (serial vs pool)",
+    "C07-f": "`tolerance or 0.05` in the constructor: needs an explicit tolerance of exactly 0.0 with a tolerance "
+             "criterion (the clustering is that of tolerance 0.05)",
+    "C08-f": "_BFSubcluster gets __eq__ on the per-bit sums and the parent looks its split child up with "
+             "list.index: needs an EARLIER sibling entry with equal sums but another count when a child splits "
+             "(about one random tiny-width never-merge history in 4000)",
+    "C09-f": "_sort_batch keeps only file pairs named uint16 / uint08: needs a cluster of more than 65535 members "
+             "(uint32 buffer files) in a midsection round; it never re-enters the next round",
+    "C12-f": "jt_sim_packed on two 1-D fingerprints counts bits on an int64 view (bitwise_count of the absolute "
+             "value): needs a width that is a multiple of 8 bytes and bit 56 of a 64-bit word set in A&B or A|B",
+    "C16-f": "calc_num_smiles counts newlines per 1 MiB block and adds one for every block that does not end in a "
+             "newline: needs an input of more than 1 MiB (all-zero rows are appended to the single-file output)",
+    "C18-f": "unpack_fingerprints unpacks a 2-D array through the flat buffer: needs packed 2-D queries with an "
+             "explicit n_features that is not a multiple of 8 (rows after the first are shifted)",
 }
 EXTRA = {"C17-a": ["C10"], "C12-a": ["C07"], "C02-a": ["C12"], "C14-b": ["C05"], "C03-b": ["C07"], "C07-b": ["C03"],
          "C05-c": ["C09"], "C02-c": ["C08"], "C09-d": ["C18"], "C03-d": ["C02", "C05"],
@@ -261,13 +281,19 @@ def main():
             if ap.returncode != 0:
                 ran.append({"cmd": f"git -C /repo apply {d}/patch.diff", "rc": ap.returncode, "out": ap.stderr[-300:]})
             else:
-                for p in [prop] + EXTRA.get(d.name, []):
-                    r = sh(f"bin/check {p} --tier quick", cwd="/verif")
+                todo = [(p, "quick") for p in [prop] + EXTRA.get(d.name, [])]
+                k = 0
+                while k < len(todo):
+                    p, tier = todo[k]
+                    k += 1
+                    r = sh(f"bin/check {p} --tier {tier}", cwd="/verif")
                     lines = [l for l in r.stdout.splitlines() if l.startswith(("VIOLATION", "[" + p, "KNOWN"))]
                     viol = next((l for l in lines if l.startswith("VIOLATION")), None)
-                    ran.append({"cmd": f"bin/check {p} --tier quick", "rc": r.returncode, "violation_line": viol,
+                    ran.append({"cmd": f"bin/check {p} --tier {tier}", "rc": r.returncode, "violation_line": viol,
                                 "with_failing_input": bool(viol) and "no-failing-input-found" not in viol,
                                 "summary": lines[-1] if lines else ""})
+                    if p == prop and tier == "quick" and r.returncode == 0:
+                        todo.insert(k, (prop, "thorough"))     # missed by the quick tier: the thorough tier decides
         finally:
             sh("git -C /repo checkout -- .")
         vlog = (d / "verify.log").read_text() if (d / "verify.log").exists() else ""
